@@ -1075,9 +1075,24 @@ func c19Imports(c *Ctx, r *Report) {
 func c19OptionsFromFlags(c *Ctx, r *Report) {
 	const rule = "C19-R2-options-from-flags"
 	n := 0
-	isFlagLoad := func(v ssa.Value) bool {
+	var isFlagLoad func(v ssa.Value) bool
+	isFlagLoad = func(v ssa.Value) bool {
 		for i := 0; i < 3; i++ {
 			switch x := v.(type) {
+			case *ssa.Parameter:
+				// a flag value handed down: every call site passes one
+				g := x.Parent()
+				pi := ssaParamIndex(g, x)
+				node := c.callGraph().Nodes[g]
+				if node == nil || len(node.In) == 0 || pi < 0 {
+					return false
+				}
+				for _, e := range node.In {
+					if e.Site == nil || pi >= len(e.Site.Common().Args) || e.Site.Common().IsInvoke() || !isFlagLoad(e.Site.Common().Args[pi]) {
+						return false
+					}
+				}
+				return true
 			case *ssa.BinOp:
 				if _, isK := x.Y.(*ssa.Const); isK {
 					v = x.X
